@@ -31,8 +31,12 @@ impl<'buf, IO: Io> Connection<'_, 'buf, IO> {
                 return Err(Error::InvalidRequest);
             }
             // A cancelled operation may have left a packet partially written: the DISCONNECT must
-            // not land inside it.
-            self.finish_partial_packet().await?;
+            // not land inside it. The transport is finished once a disconnect was requested, so a
+            // failure here latches the handle like a failure while writing the DISCONNECT does.
+            if let Err(err) = self.finish_partial_packet().await {
+                self.handle_disconnect();
+                return Err(err);
+            }
             // The dedicated control storage holds a plain or reason-only DISCONNECT even when the
             // TX arena is full. A DISCONNECT carrying properties does not fit there and is encoded
             // in the free part of the arena instead.
